@@ -144,3 +144,6 @@ func (m *runtimeContextManager) TerminateContext(format string, args ...interfac
 		message: fmt.Sprintf(format, args...),
 	})
 }
+
+func (m *runtimeContextManager) propagateTermination(child RuntimeContext, e ContextTerminationError) {
+}
